@@ -1,0 +1,32 @@
+//go:build verif
+
+// Contracts for package prom, read by /verif/govc. Comment-only file.
+package prom
+
+// ---------------------------------------------------------------------------------- C20
+
+//@ spec func wfMetrics(pm *Metrics) bool = pm != nil
+//@     && pm.requestLatencyHistogram != nil && pm.requestBytesInCounter != nil && pm.requestBytesOutCounter != nil && pm.requestFailCounter != nil
+//@     && arity(pm.requestLatencyHistogram) == 3 && arity(pm.requestBytesInCounter) == 3 && arity(pm.requestBytesOutCounter) == 3 && arity(pm.requestFailCounter) == 4
+//@     && ref(pm.requestBytesInCounter) != ref(pm.requestBytesOutCounter)
+
+//@ func NewMetrics
+//@   property C20
+//@   ensures [label-arities] wfMetrics(result) && fresh(result)
+
+//@ func (*Metrics).Observe
+//@   property C20
+//@   requires [metrics-constructed] wfMetrics(pm)
+//@   requires [non-nil] res != nil
+//@   modifies nothing
+//@   ensures [bytes-in] forall c ref :: c == child3(pm.requestBytesInCounter, res.Method, res.URL, fmtint(res.Code, 10)) ==> cval(c) == old(cval(c)) + real(res.BytesIn)
+//@   ensures [bytes-out] forall c ref :: c == child3(pm.requestBytesOutCounter, res.Method, res.URL, fmtint(res.Code, 10)) ==> cval(c) == old(cval(c)) + real(res.BytesOut)
+//@   ensures [latency-count-and-sum] forall c ref :: c == child3(pm.requestLatencyHistogram, res.Method, res.URL, fmtint(res.Code, 10)) ==>
+//@              hcount(c) == old(hcount(c)) + 1 && hsum(c) == old(hsum(c)) + dur_seconds(res.Latency)
+//@   ensures [failure-counted] res.Error != "" ==> (forall c ref :: c == child4(pm.requestFailCounter, res.Method, res.URL, fmtint(res.Code, 10), res.Error) ==> cval(c) == old(cval(c)) + 1.0)
+//@   ensures [other-label-sets-untouched] forall c ref ::
+//@              c != child3(pm.requestBytesInCounter, res.Method, res.URL, fmtint(res.Code, 10)) &&
+//@              c != child3(pm.requestBytesOutCounter, res.Method, res.URL, fmtint(res.Code, 10)) &&
+//@              !(res.Error != "" && c == child4(pm.requestFailCounter, res.Method, res.URL, fmtint(res.Code, 10), res.Error))
+//@              ==> cval(c) == old(cval(c))
+//@   ensures [other-histograms-untouched] forall c ref :: c != child3(pm.requestLatencyHistogram, res.Method, res.URL, fmtint(res.Code, 10)) ==> hcount(c) == old(hcount(c)) && hsum(c) == old(hsum(c))
